@@ -194,7 +194,7 @@ def run(src, q):
     if q.get('twin'):
         # concrete cost / probability with more than two decimals (B has the 2-decimal neighbours)
         A = scen.make_action(w, q['kind'], tuple(q['target']), q.get('name'), q.get('os'), req_symbolic=False,
-                             cost=0.104, prob=0.3333333333333333)
+                             cost=0.104, prob=0.3333333333333333, grant=2)
     else:
         A = scen.make_action(w, q['kind'], tuple(q['target']), q.get('name'), q.get('os'), req_symbolic=False, cost=sc_cost)
     dyn.scenario_actions(w, A)
